@@ -201,7 +201,10 @@ def run_check(pid, tier, seed, replay=None, jobs=None, only=None):
     min_nt = getattr(mod, "MIN_NONTRIVIAL", {}).get(tier, 2)
     if replay or only:
         return 0 if not n_incon else 2
-    if len(nontrivial_sigs) < min_nt or n_incon > max(2, evaluations // 4):
+    # a harness exception is never tolerated (the case was not decided and the machinery or the code changed shape); wall-clock
+    # watchdog cases are tolerated in small numbers on a loaded machine
+    n_exc = sum(1 for r in results if r["verdict"] == "inconclusive" and "harness exception" in str(r.get("why")))
+    if len(nontrivial_sigs) < min_nt or n_incon > max(2, evaluations // 4) or n_exc:
         print("INCONCLUSIVE property=%s nontrivial=%d (need %d) inconclusive_cases=%d" % (pid, len(nontrivial_sigs), min_nt, n_incon))
         for r in results:
             if r["verdict"] == "inconclusive":
